@@ -713,6 +713,23 @@ func (p *Printer) wordPart(wp, next WordPart) {
 		p.w.WriteString(wp.Op.String())
 		p.nestedStmts(wp.Stmts, wp.Last, wp.Rparen)
 		p.rightParen(wp.Rparen)
+	case *BraceExp:
+		p.w.WriteByte('{')
+		for i, elem := range wp.Elems {
+			if i > 0 && wp.Sequence {
+				p.w.WriteString("..")
+			} else if i > 0 {
+				p.w.WriteByte(',')
+			}
+			for j, part := range elem.Parts { // elements may be empty
+				var next WordPart
+				if j+1 < len(elem.Parts) {
+					next = elem.Parts[j+1]
+				}
+				p.wordPart(part, next)
+			}
+		}
+		p.w.WriteByte('}')
 	}
 }
 
